@@ -231,6 +231,13 @@ class Folder:
             if isinstance(x, (int, float)):
                 return x != x
             raise CannotFold('isnan argument')
+        if isinstance(fn, ast.Attribute) and fn.attr in ('isfinite', 'isinf') and isinstance(fn.value, ast.Name) and fn.value.id in ('np', 'numpy', 'math') \
+                and fn.value.id not in env and len(args) == 1 and not kwargs:
+            x = args[0]
+            if isinstance(x, (int, float)) and not isinstance(x, bool):
+                inf_ = x in (float('inf'), float('-inf'))
+                return inf_ if fn.attr == 'isinf' else not (inf_ or x != x)
+            raise CannotFold('%s argument' % fn.attr)
         if isinstance(fn, ast.Attribute) and fn.attr in ('any', 'all') and not args and not kwargs and not (
                 isinstance(fn.value, ast.Name) and fn.value.id in ('np', 'numpy')):
             recv = self.ev(fn.value, env)
@@ -308,6 +315,19 @@ class Folder:
                 broke = False
                 for item in self.ev(s.iter, env):
                     self.bind(s.target, item, env)
+                    try:
+                        self.block(s.body, env)
+                    except _Continue:
+                        continue
+                    except _Break:
+                        broke = True
+                        break
+                if not broke:
+                    self.block(s.orelse, env)
+            elif isinstance(s, ast.While):
+                broke = False
+                while self.ev(s.test, env):
+                    self.tick(s)
                     try:
                         self.block(s.body, env)
                     except _Continue:
